@@ -458,6 +458,9 @@ func resolveReplay(seed int64) func(i int, raw json.RawMessage) hx.Result {
 			panic(err)
 		}
 		installStubs()
+		if r.Fam == "seq" {
+			return seqReplay(i, seed, raw)
+		}
 		if r.Fam == "cache" {
 			return cacheReplay(i, seed, r)
 		}
